@@ -1,7 +1,7 @@
 """C10 — results are pure functions of operand values; owned matrices keep zero padding."""
 import engine, ops, vlib, corr, gen
 
-PROOFS = []
+PROOFS = ["Properties_C10"]
 OPS = [n for n, d in sorted(ops.CATALOG.items())]
 
 
